@@ -87,25 +87,28 @@ def updAt (l : List Conn) (i : Nat) (f : Conn → Conn) : List Conn :=
   | some c => l.set i (f c)
   | none => l
 
+/-- HttpLayer.get_connection below the reuse loop: the context connection, or a new one -/
+def getFresh (p : Pool) (rid : Nat) (s : Spec) : Pool × List Out :=
+  let ctxMatches := p.ctxIn.isNone && specMatches s p.ctx
+  if ctxMatches && p.ctx.error then (p, [.failed rid])
+  else if ctxMatches && p.ctx.connected then
+    -- the context connection goes into `connections`; HttpClient finds it connected and registers it at once
+    ({ p with conns := p.conns ++ [{ p.ctx with waiting := none }], ctxIn := some p.conns.length },
+     [.routed rid s p.conns.length])
+  else
+    -- HttpClient issues OpenConnection at once; with an upstream proxy that is for the tunnel connection, which
+    -- event_to_child registers right behind the new one
+    ({ p with conns := p.conns ++ [{ newConn s with waiting := some [(rid, s)] }] ++
+                        (match s.via with | some a => [tunnelConn a] | none => []) },
+     [.opened p.conns.length, .waitOn rid p.conns.length])
+
 /-- HttpLayer.get_connection -/
 def getConn (p : Pool) (reuse : Bool) (rid : Nat) (s : Spec) : Pool × List Out :=
   match (if reuse then scan p.clientH2 s 0 p.conns else Scan.none) with
   | .wait i => ({ p with conns := updAt p.conns i (addWaiting (rid, s)) }, [.waitOn rid i])
   | .fail _ => (p, [.failed rid])
   | .reuse i => (p, [.routed rid s i])
-  | .none =>
-    let ctxMatches := p.ctxIn.isNone && specMatches s p.ctx
-    if ctxMatches && p.ctx.error then (p, [.failed rid])
-    else if ctxMatches && p.ctx.connected then
-      -- the context connection goes into `connections`; HttpClient finds it connected and registers it at once
-      ({ p with conns := p.conns ++ [{ p.ctx with waiting := none }], ctxIn := some p.conns.length },
-       [.routed rid s p.conns.length])
-    else
-      -- HttpClient issues OpenConnection at once; with an upstream proxy that is for the tunnel connection, which
-      -- event_to_child registers right behind the new one
-      ({ p with conns := p.conns ++ [{ newConn s with waiting := some [(rid, s)] }] ++
-                          (match s.via with | some a => [tunnelConn a] | none => []) },
-       [.opened p.conns.length, .waitOn rid p.conns.length])
+  | .none => getFresh p rid s
 
 /-- outcome of the connection attempt as RegisterHttpConnection reports it; `setsError`: the failure was recorded in
     Server.error (TCP connect of a direct connection, TLS handshake) or not (upstream proxy refused CONNECT) -/
@@ -188,7 +191,7 @@ def step (p : Pool) : Ev → Pool × List Out × Note
     | none => (p, [], .none)
   | .poke t f =>
     match p.target t with
-    | some c => let r := setAttr c f; (p.updTarget t (fun _ => r.1), [], if r.2 then .raised else .set)
+    | some c => (p.updTarget t (fun c' => (setAttr c' f).1), [], if (setAttr c f).2 then .raised else .set)
     | none => (p, [], .none)
 
 /-- after every event: the pool and what the event produced -/
